@@ -353,7 +353,11 @@ class YP(object):
             name = term._name
             args = []
 
-        remaining_clauses = self._find_predicates(name, len(args))[:]
+        try:
+            remaining_clauses = self._find_predicates(name, len(args))[:]
+        except YPException:
+            # no facts for this predicate: nothing to retract
+            return
         i = 0
         while i < len(remaining_clauses):
             clause = remaining_clauses[i]
@@ -374,8 +378,13 @@ class YP(object):
         elif isinstance(term, Atom):
             name = term._name
             args = []
+        try:
+            clauses = self._find_predicates(name, len(args))
+        except YPException:
+            # no facts for this predicate: nothing to remove
+            return YPSuccess()
         remaining_clauses = []
-        for clause in self._find_predicates(name, len(args)):
+        for clause in clauses:
             match = False
             for cut in clause.match(args):
                     match = True
